@@ -79,6 +79,8 @@ def analyze(sched, res):
                     V.append(("C13", k, "subscribed twice in one connection epoch"))
                 ep["sub_t"] = now
                 ep["live_since"] = None
+            elif a["state"] in ("Wait", "Init", "Multipart", "Single"):
+                V.append(("C13", k, "left the Subscribe state without sending a SUBSCRIBE"))
         elif state0 == "Multipart" and walk is not None:
             # how far the walk went is visible in the iterator itself
             new_walk = starts_multipart(h, orc, st)
